@@ -119,7 +119,7 @@ def run(tier: str, seed: int, t0: float) -> int:
             doc_events(b3, sch3, rd, toks, rng, marks3, 10)
         jobs.append((b3, f"T markops[cfg {excl}]"))
     # ---- T: bundled
-    for name in schemas.BUNDLED_PLUS + ["s1"]:
+    for name in schemas.BUNDLED_PLUS + ["s1", "at"]:
         sch2, js2, prs = universe.random_docs(name, 10 if not thorough else 100, rng, size=1.3)
         b2 = trace.Batch(js2)
         marks2 = mark_universe(sch2)
